@@ -245,13 +245,30 @@ class Renderer:
         else:
             self.emit("\n")
 
+    def quoted(self, q, v):
+        """the quoted spelling of a word; under fancy layouts a backslash-newline (which the tokenizer drops)
+        is inserted between characters now and then"""
+        if not self.fancy() or self.rng.random() > 0.25:
+            return pyquote(q, v)
+        out = q
+        for ch in v:
+            if self.rng.random() < 0.2:
+                out += "\\\n"
+                self.features.add("backslash_newline_in_quotes")
+            out += ch.replace("\\", "\\\\").replace(q[0], "\\" + q[0])
+        if self.rng.random() < 0.2:
+            out += "\\\n"
+            self.features.add("backslash_newline_in_quotes")
+        return out + q
+
     def value_words(self, words, first_line_token):
         """emit the words of a value; the first word must be on the line of the name"""
         r = self.rng
         last_start_line = self.line()
         prev = None
         for i, w in enumerate(words):
-            text = w["v"] if w["q"] is None else pyquote(w["q"], w["v"])
+            later_unquoted = any(w2["q"] is None for w2 in words[i + 1:])
+            text = w["v"] if w["q"] is None else (pyquote(w["q"], w["v"]) if later_unquoted else self.quoted(w["q"], w["v"]))
             if i == 0:
                 self.sp()
             else:
